@@ -61,6 +61,7 @@ type Exec struct {
 	Uncontrolled bool     // watchdog fired, execution finished free-running
 	Stuck        bool     // watchdog fired and the threads did not finish free-running either
 	Panics       map[int]string
+	Misuse       []string // releases of a mutex nobody held (package sync would have ended the process)
 	Preemptions  int
 	// Anomaly (token mode only) says that goroutines of one logical thread ran side by side, or a goroutine ran although
 	// its thread had not been resumed: the code under test detaches work from the request that started it. The
@@ -286,7 +287,12 @@ func RunMode(prefix []int, expect [][]int, bodies []func(s *Sched), perG bool) (
 		}(t, b)
 	}
 	started.Wait()
-	verifsync.SetHooks(&verifsync.Hooks{Point: s.point})
+	var misuseMu sync.Mutex
+	verifsync.SetHooks(&verifsync.Hooks{Point: s.point, Misuse: func(kind string, _ any) {
+		misuseMu.Lock()
+		x.Misuse = append(x.Misuse, kind)
+		misuseMu.Unlock()
+	}})
 	verifhook.SetHandler(func(_ context.Context, site string, _ ...any) error {
 		if strings.HasSuffix(site, ".exit") {
 			return nil
